@@ -267,4 +267,6 @@ def translate():
     out += f'Definition wrapper_delegates : bool := {coq_bool(delegates)}.\n'
     out += f'Definition wrapper_is_async : bool := {coq_bool(is_async)}.\n'
     out += f'Definition wrapper_has_wraps : bool := {coq_bool(has_wraps)}.\n'
+    out += (f'Definition kw_flags : kwflags := {{| kw_parent_safe := {coq_bool(parent_kw_safe)}; '
+            f'kw_child_safe := {coq_bool(child_kw_safe)} |}}.\n')
     return {UNIT: out}
